@@ -383,6 +383,131 @@ def r6_metadata_printed_and_read(ctx):
            "" if ok else "_read_meta replaces instead of merging: nested ^a ^b prefixes or reader location keys drop metadata")
 
 
+UTIL = "src/basilisp/lang/util.py"
+# printer payload -> the constructor that inverts it (FT-repr: fromisoformat inverts isoformat, UUID(str(u)) == u)
+DATA_READER_INVERSES = {"inst_from_str": ("datetime.datetime.fromisoformat", "o.isoformat()"), "uuid_from_str": ("uuid.UUID", "str(o)")}
+
+
+@rule("C03.R8", floor=2)
+def r8_data_readers_are_plain_inverses(ctx):
+    """#inst and #uuid payloads are written with isoformat() / str(); the functions the reader's
+    data-reader table calls must return exactly what the inverse constructor gives for the text,
+    with nothing applied afterwards (no astimezone/replace/normalisation): any post-processing
+    makes the re-read value print differently from the original."""
+    tree = ctx.py(UTIL)
+    for fname, (inverse, payload) in sorted(DATA_READER_INVERSES.items()):
+        fn = P.find_def(tree, fname)
+        if fn is None:
+            raise AnalysisError(f"anchor vanished: util.{fname}")
+        param = fn.args.args[0].arg
+        rets = [r for r in ast.walk(fn) if isinstance(r, ast.Return) and r.value is not None]
+        problems = []
+        for r in rets:
+            v = r.value
+            if isinstance(v, ast.Name):
+                assigns = [a for a in ast.walk(fn) if isinstance(a, (ast.Assign, ast.AnnAssign, ast.AugAssign, ast.NamedExpr)) and any(isinstance(t, ast.Name) and t.id == v.id for t in (a.targets if isinstance(a, ast.Assign) else [a.target]))]
+                if len(assigns) != 1:
+                    problems.append(f"`{v.id}` is assigned {len(assigns)} times before it is returned (line {r.lineno}): the value the inverse constructor produced is post-processed")
+                    continue
+                v = assigns[0].value
+            if not (isinstance(v, ast.Call) and P.un(v.func) == inverse and v.args and any(isinstance(x, ast.Name) and x.id == param for x in ast.walk(v.args[0]))):
+                problems.append(f"returns `{P.un(v)[:60]}`, not {inverse}(<the text>)")
+        ok = bool(rets) and not problems
+        ctx.ob("C03.R8", f"{UTIL}::{fname} returns {inverse}(text) unchanged (inverse of {payload})", UTIL, fn.lineno, ok, "; ".join(problems),
+               witness='(pr-str (read-string "#inst \\"2020-01-01T00:00:00+05:00\\"")) must give the same text back')
+
+
+def _reachable_under(fn, facts: dict, targets) -> bool:
+    """Is any of the AST statements `targets` reachable in `fn` when the expressions in `facts`
+    (source text -> constant) have those values?  Constant propagation over the CFG: names assigned
+    from decidable expressions are tracked, atomic branch tests over them prune edges."""
+    from ..pycfg import CFG
+    TOP = object()
+
+    def ev(e, env):
+        t = P.un(e)
+        if t in facts:
+            return facts[t]
+        if isinstance(e, ast.Constant):
+            return e.value
+        if isinstance(e, ast.Name):
+            return env.get(e.id, TOP)
+        if isinstance(e, ast.UnaryOp) and isinstance(e.op, ast.Not):
+            v = ev(e.operand, env)
+            return TOP if v is TOP else (not v)
+        if isinstance(e, ast.IfExp):
+            c = ev(e.test, env)
+            if c is TOP:
+                a, b = ev(e.body, env), ev(e.orelse, env)
+                return a if (a is not TOP and a == b) else TOP
+            return ev(e.body, env) if c else ev(e.orelse, env)
+        if isinstance(e, ast.Compare) and len(e.ops) == 1 and isinstance(e.ops[0], (ast.Is, ast.IsNot)):
+            a, b = ev(e.left, env), ev(e.comparators[0], env)
+            if a is TOP or b is TOP:
+                return TOP
+            r = a is b
+            return r if isinstance(e.ops[0], ast.Is) else not r
+        if isinstance(e, ast.BoolOp):
+            vals = [ev(x, env) for x in e.values]
+            if isinstance(e.op, ast.And):
+                if any(v is not TOP and not v for v in vals):
+                    return False
+                return TOP if any(v is TOP for v in vals) else vals[-1]
+            if any(v is not TOP and v for v in vals):
+                return True
+            return TOP if any(v is TOP for v in vals) else vals[-1]
+        return TOP
+    g = CFG(fn)
+    tnodes = {nd.id for nd in g.nodes if nd.ast is not None and any(nd.ast is t or P.contains(nd.ast, t) for t in targets) and nd.kind in ("stmt", "test")}
+    seen = set()
+    work = [(g.entry.id, ())]
+    while work:
+        nid, envt = work.pop()
+        if (nid, envt) in seen:
+            continue
+        seen.add((nid, envt))
+        if nid in tnodes:
+            return True
+        nd = g.nodes[nid]
+        env = dict(envt)
+        labels = None
+        if nd.kind == "test":
+            v = ev(nd.ast, env)
+            if v is not TOP:
+                labels = {bool(v)}
+        elif nd.kind == "stmt" and isinstance(nd.ast, ast.Assign) and len(nd.ast.targets) == 1 and isinstance(nd.ast.targets[0], ast.Name):
+            v = ev(nd.ast.value, env)
+            if v is TOP:
+                env.pop(nd.ast.targets[0].id, None)
+            elif isinstance(v, (bool, int, str, type(None))):
+                env[nd.ast.targets[0].id] = v
+        elif nd.kind == "stmt" and nd.ast is not None:
+            for t in P.store_targets(nd.ast) if isinstance(nd.ast, (ast.AugAssign, ast.AnnAssign, ast.Assign)) else []:
+                if isinstance(t, ast.Name):
+                    env.pop(t.id, None)
+        for m, lab in nd.succ:
+            if labels is not None and lab in (True, False) and lab not in labels:
+                continue
+            work.append((m.id, tuple(sorted(env.items(), key=lambda kv: kv[0]))))
+    return False
+
+
+@rule("C03.R9", floor=2)
+def r9_no_truncation_under_print_dup(ctx):
+    """*print-dup* claims a readable rendering: neither collection helper may append the `...`
+    length trailer when print_dup is on.  Both helpers (sequences and maps) are checked by
+    constant propagation of print_dup = True through their control flow."""
+    for rel, fname in ((OBJ, "seq_lrepr"), (MAP, "map_lrepr")):
+        fn = ctx.fn(rel, fname)
+        trunc = [s for s in ast.walk(fn) if isinstance(s, ast.Expr) and isinstance(s.value, ast.Call) and "SURPASSED_PRINT_LENGTH" in P.un(s.value)]
+        if not trunc:
+            raise AnalysisError(f"anchor vanished: {fname} no longer appends SURPASSED_PRINT_LENGTH")
+        bad = _reachable_under(fn, {'kwargs["print_dup"]': True, "kwargs['print_dup']": True}, trunc)
+        ctx.ob("C03.R9", f"{rel}::{fname}::no `...` trailer when print_dup is on", rel, trunc[0].lineno, not bad,
+               "" if not bad else f"{fname} can cut the collection at *print-length* and append `...` although *print-dup* is on: the printed text does not read back",
+               witness="(binding [*print-dup* true *print-length* 1] (pr-str {:a 1 :b 2}))")
+
+
 @rule("C03.R7", floor=1)
 def r7_regex_escape_symmetry(ctx):
     """The regex reader reads its literal raw (backslashes kept as written); the regex printer must
@@ -398,6 +523,15 @@ def r7_regex_escape_symmetry(ctx):
 
 
 SELFTEST = [
+    {"name": "map printer truncates under print-dup", "file": MAP, "expect": "C03.R9",
+     "old": "    if not print_dup and isinstance(print_length, int):\n        items = list(islice(entry_reprs(), print_length + 1))", "new": "    if isinstance(print_length, int):\n        items = list(islice(entry_reprs(), print_length + 1))"},
+    {"name": "twin: seq printer folds the print-dup test into the limit", "file": OBJ, "expect": None,
+     "old": "    print_length = kwargs[\"print_length\"]\n    if not print_dup and isinstance(print_length, int):\n        items = list(islice(iterable, print_length + 1))",
+     "new": "    print_length = None if print_dup else kwargs[\"print_length\"]\n    if print_length is not None and isinstance(print_length, int):\n        items = list(islice(iterable, print_length + 1))"},
+    {"name": "inst reader normalises to UTC", "file": UTIL, "expect": "C03.R8",
+     "old": "    return datetime.datetime.fromisoformat(inst_str)\n", "new": "    return datetime.datetime.fromisoformat(inst_str).astimezone(datetime.timezone.utc)\n"},
+    {"name": "twin: inst reader names its result", "file": UTIL, "expect": None,
+     "old": "    return datetime.datetime.fromisoformat(inst_str)\n", "new": "    inst = datetime.datetime.fromisoformat(inst_str.strip())\n    return inst\n"},
     {"name": "vector printer forgets its metadata", "file": "src/basilisp/lang/vector.py", "expect": "C03.R6",
      "old": "        return _seq_lrepr(self._inner, \"[\", \"]\", meta=self._meta, **kwargs)\n", "new": "        return _seq_lrepr(self._inner, \"[\", \"]\", **kwargs)\n"},
     {"name": "seq printer writes metadata only when print_meta is off", "file": OBJ, "expect": "C03.R6",
